@@ -17,6 +17,7 @@ Inductive cop :=
 | OItem (c : lcfg)
 | ONote (endnote : bool) (text : N)
 | ORestart (numid : option nat)            (* RestartNumbering with an id that is a number, or with any other string *)
+| OReopen                                  (* save, open the bytes, go on with the opened document (no table of contents so far) *)
 | ORemove (endnote : bool) (id : nat) (ok : bool)
 | OHeading (level : Z) (text : N)           (* AddHeadingParagraph *)
 | OStyled (style : string) (text : N)       (* AddParagraph + SetStyle *)
@@ -65,6 +66,11 @@ Definition cstep (m : mstate) (o : cop) : option mstate :=
                Some (mkM n' (m_items m ++ [it]) (m_fn m) (m_en m) (add_para (m_t m) 0 1%N))
   | ONote e t => Some (if e then mkM (m_n m) (m_items m) (m_fn m) (add_note (m_en m) t) (add_para (m_t m) 0 1%N)
                        else mkM (m_n m) (m_items m) (add_note (m_fn m) t) (m_en m) (add_para (m_t m) 0 1%N))
+  | OReopen =>
+      match t_toc (m_t m) with
+      | Some _ => None
+      | None => Some (mkM (reopen (m_n m)) (m_items m) (reopen_notes (m_fn m)) (reopen_notes (m_en m)) (m_t m))
+      end
   | ORestart id =>
       (* an argument that is not a number names no instance *)
       let n' := match id with Some i => restart (m_n m) i | None => restart (m_n m) 0 end in
